@@ -2,21 +2,24 @@ import SeqVerif.Base.Proto
 import SeqVerif.Model.Bulk
 import SeqVerif.Model.BulkTime
 import SeqVerif.Model.BulkMeta
+import SeqVerif.Model.BulkMetaCodec
 import SeqVerif.Extracted.C10
 /-!
 Driver for C10.  Requests (hex = byte string, `-` = empty):
   `bulk.readline <B> <eager> <clean> <stream hex>`          -> `ok eof` | `ok fail` | `ok line <hex> <pre 0|1> <rest length>`
-  `bulk.frame <B> <eager> <clean> <checkN> <body hex>`      -> `ok <doc hex,...> <done | err proto | err io>`
-  `bulk.proc <B> <eager> <clean> <checkN> <storeOk> <body hex> <kinds: hex=o|n|i,...>`
+  `bulk.frame <B> <eager> <clean> <body hex>`           -> `ok <doc hex,...> <done | err proto | err io>`
+  `bulk.proc <B> <eager> <clean> <storeOk> <body hex> <kinds: hex=o|n|i,...>`
                                                             -> `ok <items> <none | count:payload hex>` | `err <400|500> <none | count:payload hex>`
-  `bulk.ingest <B> <eager> <clean> <checkN> <storeOk> <req ns> <drift> <futureDrift> <body hex> <kinds: hex=o|n|i[@doc ns],...>`
+  `bulk.ingest <B> <eager> <clean> <storeOk> <req ns> <drift> <futureDrift> <body hex> <kinds: hex=o|n|i[@doc ns],...>`
                                                             -> as `bulk.proc`, the store call printed as `count:payload hex:mid/size,...`
   `bulk.encode <doc hex,...>`                               -> `ok <payload hex>`
   `bulk.decode <payload hex>`                               -> `ok <doc hex,...>` | `err malformed`
+  `bulk.metas <metas payload hex>`                          -> `ok <mid:rid:size:khex=vhex+...,...> reenc=<0|1>` | `err malformed`
   `bulk.delayed <docDelay> <drift> <futureDrift>`           -> `ok <0|1>`     (extracted translation of documentDelayed)
   `bulk.mid <doc ns | none> <req ns> <drift> <futureDrift>` -> `ok <MID>`
   `bulk.extract <nFormats> <value hex,...> <oracle: f:hex=ns;...>` -> `ok <ns | none>`
-Lines of a document unknown to the `kinds` table count as invalid JSON.
+Lines of a document unknown to the `kinds` table count as invalid JSON.  The number of checked action lines is
+the extracted `actionLinesToCheck`.
 -/
 open SV SV.Proto SV.Bulk SV.BulkTime
 
@@ -89,8 +92,8 @@ def step (line : String) : String :=
       | .fail => "ok fail"
       | .line l pre rest => s!"ok line {fmtHex l} {fmtBool pre} {rest.length}"
     | _, _ => "bad-op"
-  | ["bulk.frame", b, eager, clean, checkN, body] =>
-    match env? b eager clean, checkN.toNat?, hex? body with
+  | ["bulk.frame", b, eager, clean, body] =>
+    match env? b eager clean, some SV.Extracted.C10.actionLinesToCheck, hex? body with
     | some E, some c, some s =>
       let r := readAll E c s
       let e := match r.2 with
@@ -98,13 +101,13 @@ def step (line : String) : String :=
         | .err e => "err " ++ errClass e
       s!"ok {fmtDocs r.1} {e}"
     | _, _, _ => "bad-op"
-  | ["bulk.proc", b, eager, clean, checkN, storeOk, body, kinds] =>
-    match env? b eager clean, checkN.toNat?, bool? storeOk, hex? body, kinds? kinds with
+  | ["bulk.proc", b, eager, clean, storeOk, body, kinds] =>
+    match env? b eager clean, some SV.Extracted.C10.actionLinesToCheck, bool? storeOk, hex? body, kinds? kinds with
     | some E, some c, some so, some s, some tbl =>
       fmtResult false (processDocuments E c (kindOf tbl) (fun d => ⟨0, d.length⟩) so s)
     | _, _, _, _, _ => "bad-op"
-  | ["bulk.ingest", b, eager, clean, checkN, storeOk, req, drift, fut, body, kinds] =>
-    match env? b eager clean, checkN.toNat?, bool? storeOk, hex? body, kinds? kinds, req.toInt?, drift.toInt?, fut.toInt? with
+  | ["bulk.ingest", b, eager, clean, storeOk, req, drift, fut, body, kinds] =>
+    match env? b eager clean, some SV.Extracted.C10.actionLinesToCheck, bool? storeOk, hex? body, kinds? kinds, req.toInt?, drift.toInt?, fut.toInt? with
     | some E, some c, some so, some s, some tbl, some req, some drift, some fut =>
       let T : TimeCfg := ⟨SV.Extracted.C10.documentDelayedX, timeOfTbl tbl, req, drift, fut⟩
       fmtResult true (processDocuments E c (kindOf tbl) (metaFor T) so s)
@@ -118,6 +121,16 @@ def step (line : String) : String :=
     | some p =>
       match decodeDocs p.length p with
       | some ds => s!"ok {fmtDocs ds}"
+      | none => "err malformed"
+    | none => "bad-op"
+  | ["bulk.metas", payload] =>
+    match hex? payload with
+    | some p =>
+      match (decodeDocs p.length p).bind (fun rs => rs.mapM decMeta) with
+      | some ms =>
+        let fmtTok (t : Token) := s!"{fmtHex t.key}={fmtHex t.val}"
+        let fmtM (m : MetaRec) := s!"{m.mid}:{m.rid}:{m.size}:{fmtList fmtTok m.tokens "+"}"
+        s!"ok {fmtList fmtM ms} reenc={fmtBool (encodeMetas ms == p)}"
       | none => "err malformed"
     | none => "bad-op"
   | ["bulk.delayed", d, p, f] =>
